@@ -26,11 +26,11 @@ const (
 // each time. The harness' listener does what AddPeer + peerHandler do: it hands the same
 // serverPeer to the real handleAddPeerMsg at each OnVersion.
 func c18DoubleVersion(c *Ctx) (reproduced bool, observed string, err error) {
-	r := newPeerRig(2, 2)
+	r := c18NewPeerRig(2, 2)
 	defer r.closeAll()
-	var holder *rigPeer
+	var holder *c18RigPeer
 	var adds []string
-	onVersion := func(rp *rigPeer) {
+	onVersion := func(rp *c18RigPeer) {
 		holder = rp
 		ok := p2p.VerifAddPeer(r.srv, r.st, rp.sp)
 		adds = append(adds, fmt.Sprintf("id=%d admitted=%v", rp.sp.ID(), ok))
@@ -75,7 +75,7 @@ func c18RunOps(c *Ctx, l *lib.Lean, name string, ops []string) error {
 				}
 			}
 		}
-		return runPeerHistory(c, l, peerHistory{name: name, nhosts: nh, ngroups: ng, ops: ops})
+		return c18RunPeerHistory(c, l, c18PeerHistory{name: name, nhosts: nh, ngroups: ng, ops: ops})
 	case strings.HasPrefix(ops[0], "conn "):
 		_, err := c18Lockstep(c, l, ops, "conn/"+name)
 		return err
@@ -155,9 +155,9 @@ func runC18(c *Ctx) error {
 	}
 	for _, p := range plans {
 		for i := 0; i < p.count; i++ {
-			h := genPeerHistory(rng, p.n, p.style)
+			h := c18GenPeerHistory(rng, p.n, p.style)
 			h.name = "gen:" + p.style
-			if err := runPeerHistory(c, l, h); err != nil {
+			if err := c18RunPeerHistory(c, l, h); err != nil {
 				return err
 			}
 		}
@@ -188,7 +188,7 @@ func runC18(c *Ctx) error {
 	c.R.Count("conn:history:witness", 1)
 	for _, p := range cplans {
 		for i := 0; i < p.count; i++ {
-			ops := genConnHistory(rng, p.n, p.style)
+			ops := c18GenConnHistory(rng, p.n, p.style)
 			done, err := c18Lockstep(c, l, ops, "conn/"+p.style)
 			if err != nil {
 				return err
